@@ -179,6 +179,15 @@ func parseSig(b []byte) (uint32, bool, []byte, error) {
 
 // split bytecode into head and b using length-prefixed integer
 func intSplit(b []byte) (uint32, []byte, error) {
+	if len(b) == 0 {
+		return 0, b, fmt.Errorf("argument is empty")
+	}
+	if b[0] > 4 {
+		return 0, b, fmt.Errorf("integer width %v too big", b[0])
+	}
+	if len(b) < int(b[0])+1 {
+		return 0, b, fmt.Errorf("corrupt instruction, len %v less than integer width: %v", len(b)-1, b[0])
+	}
 	l := uint8(b[0])
 	sz := uint32(l)
 	b = b[1:]
@@ -209,11 +218,11 @@ func instructionSplit(b []byte) (string, []byte, error) {
 		return "", nil, fmt.Errorf("zero-length argument")
 	}
 	bSz := len(b)
-	if bSz < int(sz) {
-		return "", nil, fmt.Errorf("corrupt instruction, len %v less than symbol length: %v", bSz, sz)
+	if bSz < int(sz)+1 {
+		return "", nil, fmt.Errorf("corrupt instruction, len %v less than symbol length: %v", bSz-1, sz)
 	}
-	r := string(b[1 : 1+sz])
-	return r, b[1+sz:], nil
+	r := string(b[1 : 1+int(sz)])
+	return r, b[1+int(sz):], nil
 }
 
 // split bytecode into head and b using opcode
